@@ -536,6 +536,19 @@ class Interp(CallMixin):
                     raise Unsupported("star pattern")
                 return False
             return all(self.match_pattern(p, v, frame) for p, v in zip(pat.patterns, subject))
+        if isinstance(pat, ast.MatchMapping):
+            if not isinstance(subject, dict):
+                return False
+            used = []
+            for k_expr, sub in zip(pat.keys, pat.patterns):
+                k = self.eval(k_expr, frame)
+                hit = [kk for kk in subject if self.eq(kk, k)]
+                if not hit or not self.match_pattern(sub, subject[hit[0]], frame):
+                    return False
+                used.append(hit[0])
+            if pat.rest is not None:
+                frame.vars[pat.rest] = {kk: vv for kk, vv in subject.items() if kk not in used}
+            return True
         raise Unsupported(f"match pattern {type(pat).__name__}")
 
     @staticmethod
